@@ -82,6 +82,7 @@ package lfs
 //@   ensures err_cleanptr(err) ==> err_ctxbytes(err) == old(rrest(reader)) && len(old(rrest(reader))) < 1024
 //@   ensures err_cleanptr(err) && len(old(rrest(reader))) > 0 ==> decodes_ok(str_trim(old(rrest(reader))))
 //@   ensures err == nil ==> tmp != nil && fdata(fpath(tmp)) == old(rrest(reader)) && oid == hexsha(old(rrest(reader))) && size == len(old(rrest(reader)))
+//@   ensures err == nil ==> !isobj(fpath(tmp))
 
 //@ func TempFile
 //@   assumed
@@ -91,3 +92,25 @@ package lfs
 //@   ensures !isobj(fpath(result0))
 //@   ensures result1 != nil ==> result0 == nil
 //@   ensures !err_cleanptr(result1)
+
+// Clean (no pointer extensions configured): the pointer names SHA-256 and
+// length of exactly what was written to the temp file, which is the input.
+//@ func (*GitFilter).Clean
+//@   props C01 C08
+//@   requires @inv reader != nil && reads_ok(reader) && f.cfg != nil
+//@   ensures ext_count(old(f.cfg)) == 0 && err_cleanptr(result1) ==> err_ctxbytes(result1) == old(rrest(reader)) && len(old(rrest(reader))) < 1024
+//@   ensures ext_count(old(f.cfg)) == 0 && result1 == nil ==> result0 != nil && result0.Pointer != nil && result0.Oid == hexsha(old(rrest(reader))) && result0.Size == len(old(rrest(reader))) && fdata(result0.Filename) == old(rrest(reader))
+//@   ensures ext_count(old(f.cfg)) == 0 && result1 == nil ==> !isobj(result0.Filename)
+
+//@ func (*github.com/git-lfs/git-lfs/v3/config.Configuration).SortedExtensions
+//@   assumed
+//@   props C01 C08
+//@   modifies fresh
+//@   ensures result1 == nil ==> len(result0) == ext_count(c)
+//@   ensures !err_cleanptr(result1)
+
+// The pointer-extension pipeline runs external programs: outside the proof.
+//@ func pipeExtensions
+//@   assumed
+//@   props C01 C08
+//@   modifies all
